@@ -176,6 +176,23 @@ def sharing_family():
                       ("obj", [], [], [(S("a"), ":", False, ("bin", "+", N(1), N(1))),
                                        (S("b"), ":", False, ("index", ("self",), S("a")))]),
                       ("obj", [], [], [(S("c"), ":", False, ("arr", [("index", ("self",), S("a"))] * k))])))
+    # native builtins hand elements to their callback unevaluated and keep result elements lazy
+    # (regressions of 762ca42 9d0c0a4 9dc676b 66d5623): an element nothing reads must not run
+    el = lambda z: ("bin", "+", N(z), N(1))  # noqa
+    cat = ("fun", [("a", None), ("b", None)], ("bin", "+", V("a"), ("arr", [V("b")])))
+    tac = ("fun", [("b", None), ("a", None)], ("bin", "+", V("a"), ("arr", [V("b")])))
+    wrap1 = ("fun", [("c", None)], ("arr", [V("c")]))
+    progs.append(("len", ("std", "foldl", [cat, ("arr", [el(1), el(2)]), ("arr", [])], 9001)))
+    progs.append(("len", ("std", "foldr", [tac, ("arr", [el(1), el(2)]), ("arr", [])], 9002)))
+    progs.append(("index", ("std", "foldl", [cat, ("arr", [el(1), el(2), el(3)]), ("arr", [])], 9003), N(1)))
+    progs.append(("index", ("bin", "+", ("std", "flatMap", [wrap1, ("arr", [el(1), el(2)])], 9004), ("arr", [N(0)])), N(0)))
+    progs.append(("len", ("std", "flatMap", [wrap1, ("arr", [el(1), el(2)])], 9005)))
+    progs.append(("index", ("std", "map", [("fun", [("x", None)], N(7)), ("arr", [el(1)])], 9006), N(0)))
+    progs.append(("index", ("std", "map", [wrap1, ("arr", [el(1), el(2)])], 9007), N(1)))
+    progs.append(("len", ("std", "mapWithIndex", [("fun", [("i", None), ("x", None)], V("i")), ("arr", [el(1), el(2)])], 9008)))
+    progs.append(("std", "mapWithIndex", [("fun", [("i", None), ("x", None)], V("i")), ("arr", [el(1), el(2)])], 9009))
+    progs.append(("len", ("std", "filterMap", [("fun", [("x", None)], ("bool", True)), ("fun", [("x", None)], N(1)),
+                                               ("arr", [el(1), el(2)])], 9010)))
     # an object local read by assertions and by fields (and by both layers' assertions): one evaluation
     for nas in (1, 2):
         for nf in (1, 2):
